@@ -65,6 +65,22 @@ def sb(key, func, catch=False):
     return body
 
 
+def sbk(name, arg, func):
+    """subbuild with an explicit function name and argument (keys that are JSON-equal but spelled differently)"""
+    def body(b, P, log):
+        def inner(bb, *a):
+            return func(bb, P, log)
+        try:
+            r = b.subbuild(name, inner, arg)
+            log.append(['ok', 'sb', name])
+            return ['ok', r]
+        except Exception as e:
+            log.append(['exc', 'sb', name, type(e).__name__])
+            raise
+    body.label = 'sbk(%s)' % name
+    return body
+
+
 def queries(paths):
     def body(b, P, log):
         out = []
@@ -113,6 +129,14 @@ def scenarios():
     S['dup_file'] = dict(threads=[catching(bf('a/x', w('1'), name='same')), catching(bf('a/x', w('1'), name='same'))], dup=True)
     S['dup_sub'] = dict(threads=[catching(sb(7, queries(['']))), catching(sb(7, queries([''])))], dup=True)
     S['dup_sub_cached'] = dict(prior=[sb(7, queries(['']))], threads=[catching(sb(7, queries(['']))), catching(sb(7, queries([''])))], dup=True)
+    # the same subbuild key spelled in two JSON-equal ways
+    S['dup_sub_json_equal'] = dict(threads=[catching(sbk('same', (1, (2,)), queries(['']))), catching(sbk('same', [1.0, [2]], queries([''])))], dup=True)
+    S['dup_sub_json_equal_cached'] = dict(prior=[sbk('same', [1, [2]], queries(['']))],
+                                          threads=[catching(sbk('same', (1, (2,)), queries(['']))), catching(sbk('same', [1.0, [2]], queries([''])))], dup=True)
+    # two old outputs rebuilt by two threads in a build that then fails: the roll-back must bring both back
+    S['rebuild_two_then_fail'] = dict(prior=[bf('d/x', w('old-x'), name='v1'), bf('d/y', w('old-y'), name='v1')],
+                                      threads=[bf('d/x', w('new-x'), name='v2'), bf('d/y', w('new-y'), name='v2')], root_raises=True)
+    S['build_two_then_fail'] = dict(threads=[bf('a/x', w('1')), bf('a/b/y', w('2'))], root_raises=True)
     return S
 
 
@@ -160,6 +184,8 @@ def run_scenario(scn, mode, deviations=None, order=None):
                     results[i] = ['ok', bodies[i](b, P, log)]
                 except Exception as e:
                     results[i] = ['exc', type(e).__name__]
+            if scn.get('root_raises'):
+                raise Boom('root')
             return 'done'
         if mode == 'seq':
             try:
@@ -179,6 +205,8 @@ def run_scenario(scn, mode, deviations=None, order=None):
                             results[i] = ['exc', type(e).__name__]
                     tids.append(s.spawn(run, 'T%d' % (i + 1)))
                 s.join(tids)
+                if scn.get('root_raises'):
+                    raise Boom('root')
                 return 'done'
 
             def whole():
